@@ -559,6 +559,24 @@ func (p *Path) callBuiltin(g *G, fr *Frame, name string, args []Value, fv *FuncV
 			p.runtimePanic("value method called using nil pointer")
 		}
 		return args[0], stNext
+	case "SliceData":
+		// unsafe.SliceData: only its use by unsafe.String (strings.Builder.String) is supported
+		if sv, ok := args[0].(SliceV); ok {
+			return sliceDataV{sv}, stNext
+		}
+	case "String":
+		if sd, ok := args[0].(sliceDataV); ok {
+			n := int(p.concInt(args[1], "unsafe.String length"))
+			es := p.sliceElems(sd.s)
+			if n > len(es) {
+				p.runtimePanic("unsafe.String: len out of range")
+			}
+			bs := make([]byte, n)
+			for i := 0; i < n; i++ {
+				bs[i] = byte(p.concInt(es[i], "unsafe.String bytes"))
+			}
+			return conc(string(bs)), stNext
+		}
 	case "min", "max":
 		a, b := args[0].(*Term), args[1].(*Term)
 		lt := p.tc.Cmp("bvslt", a, b)
@@ -570,6 +588,9 @@ func (p *Path) callBuiltin(g *G, fr *Frame, name string, args []Value, fv *FuncV
 	p.unsupported("builtin " + name + fmt.Sprintf(" on %T", args[0]))
 	return nil, stNext
 }
+
+// sliceDataV: the result of unsafe.SliceData (pointer to a slice's backing array)
+type sliceDataV struct{ s SliceV }
 
 var sizeClasses = []int{0, 8, 16, 24, 32, 48, 64, 80, 96, 112, 128, 144, 160, 176, 192, 208, 224, 240, 256, 288, 320, 352, 384, 416, 448, 480, 512, 576, 640, 704, 768, 896, 1024, 1152, 1280, 1408, 1536, 1792, 2048, 2304, 2688, 3072, 3200, 3456, 4096, 4864, 5120, 5376, 6144, 6528, 6784, 6912, 8192, 9472, 9728, 10240, 10880, 12288, 13568, 14336, 16384, 18432, 19072, 20480, 21760, 24576, 27264, 28672, 32768}
 
